@@ -138,14 +138,14 @@ def dup_formulas():
 
 def formula_set(tier):
     quick = tier == 'quick'
-    I = F.I_QUICK if quick else F.I_FULL
+    I = ((0, 1), (1, 2)) if quick else F.I_FULL
     U = F.unary_ops(I, ops=PAST_U)
     B = F.binary_ops(I, ops=PAST_B, unless=False)
     leaf = [(F.PX, F.PY, F.X)]
     fs = list(F.F(2, U, B, leaf))
     fs += dup_formulas()
     if quick:
-        Uc = [('not',), ('prev',), ('rise',), ('once', None), ('once', (1, 2)), ('historically', (0, 1))]
+        Uc = [('prev',), ('rise',), ('once', (1, 2)), ('historically', (0, 1))]
     else:
         Uc = F.unary_ops(((0, 1), (1, 2)), ops=PAST_U)
     fs += list(F.chains(3, Uc, F.PX))
@@ -160,14 +160,84 @@ def formula_set(tier):
 
 def params(tier):
     if tier == 'quick':
-        return dict(values=(F.V3, F.V2), maxdepth=6, max_transitions=1200, validate='first')
-    return dict(values=(F.V3, F.V3), maxdepth=9, max_transitions=20000, validate='first')
+        return dict(values=(F.V3, F.V2), maxdepth=6, max_transitions=600, validate='first')
+    return dict(values=(F.V3, F.V3), maxdepth=8, max_transitions=6000, validate='first')
+
+
+def deep_set(tier):
+    """bounds up to 7 and three nested temporal operators; explored over a two-letter alphabet to a larger depth"""
+    d = F.deep_formulas(PAST_U, ('since',), future=False)
+    return d if tier != 'quick' else d[::4]
+
+
+def deep_params(tier):
+    if tier == 'quick':
+        return dict(values=(F.V2, F.V2), maxdepth=16, max_transitions=2000, validate='none')
+    return dict(values=(F.V2, F.V2), maxdepth=24, max_transitions=40000, validate='first')
 
 
 def shards(tier):
     fs = formula_set(tier)
     per = 6 if tier == 'quick' else 2
-    return [{'formulas': [F.to_json(f) for f in fs[i:i + per]]} for i in range(0, len(fs), per)]
+    out = [{'formulas': [F.to_json(f) for f in fs[i:i + per]]} for i in range(0, len(fs), per)]
+    ds = deep_set(tier)
+    out += [{'formulas': [F.to_json(f) for f in ds[i:i + 2]], 'deep': True} for i in range(0, len(ds), 2)]
+    ls = long_set(tier)
+    out += [{'formulas': [F.to_json(f) for f in ls[i:i + 2]], 'long': True} for i in range(0, len(ls), 2)]
+    return out
+
+
+def long_set(tier):
+    """formulas monitored on the fixed family of LONG traces (behaviour that depends on the number of updates: buffers compacted in
+    blocks, counters, caches): deep and wide bounds plus every one-operator past formula"""
+    ds = F.deep_formulas(PAST_U, ('since',), future=False)
+    fs = (ds[::5] if tier == 'quick' else ds) + F.wide_formulas(PAST_U, ('since',), future=False)[::(2 if tier == 'quick' else 1)]
+    U = F.unary_ops(F.I_QUICK, ops=PAST_U)
+    fs += [F.ap1(u, F.PX) for u in U] + [('since', None, F.PX, F.PY), ('since', (1, 2), F.PX, F.PY)] + [f for f in F.patterns() if F.past_only(f)]
+    return fs
+
+
+LONG_N = 48
+
+
+def run_long(res, mod, f, tier, pastify=False, delay=0, text=None):
+    """every trace of the long family: one fresh monitor, one update per sample, each value compared with the reference"""
+    m = DtOnlineModel(f, (F.V3, F.V2), text=text, pastify=pastify, delay=delay, offline=False)
+    vs = m.vs
+    traces = F.long_traces(len(vs), LONG_N, F.V3 if len(vs) == 1 else F.V2)
+    if tier == 'quick':
+        traces = traces[::3]
+    fj = F.to_json(f)
+    for t in traces:
+        w = {v: [e[i] for e in t] for i, v in enumerate(vs)}
+        try:
+            ref = refsem.ev(f, w, len(t))
+        except refsem.DomainError:
+            continue
+        obj = m.fresh()
+        res.evaluations += 1
+        res.traces += 1
+        bad = None
+        for i, e in enumerate(t):
+            k, v = impl.outcome(impl.dt_update, obj, i, dict(zip(vs, e)))
+            res.transitions += 1
+            if k != 'ok':
+                bad = 'update() number %d raised %s' % (i + 1, v)
+                break
+            if i >= delay:
+                exp = ref[i - delay]    # delay = horizon: position i - delay is settled on w[0..i], its value is that on the whole trace
+                if not refsem.same(v, exp):
+                    bad = 'update() number %d returned %r, reference rho at sample %d is %r (long run)' % (i + 1, v, i - delay, exp)
+                    break
+        if bad:
+            res.violation(mod, {'formula': fj, 'spec': m.text, 'vars': vs, 'history': [list(e) for e in t[:i + 1]], 'pastify': pastify, 'delay': delay}, bad)
+            res.outcomes['long run mismatch'] += 1
+        else:
+            res.nontrivial += 1
+            res.outcomes['long run agrees'] += 1
+        res.digest(m.text, t[:6], bool(bad))
+    res.states += 1
+    res.formulas += 1
 
 
 def explore_formula(res, mod, f, p, model=None, extra=None):
@@ -201,10 +271,14 @@ def explore_formula(res, mod, f, p, model=None, extra=None):
 
 
 def run_shard(shard, tier, res):
-    p = params(tier)
+    p = deep_params(tier) if shard.get('deep') else params(tier)
     mod = sys.modules[__name__]
     for fj in shard['formulas']:
         f = F.from_json(fj)
+        if shard.get('long'):
+            run_long(res, mod, f, tier)
+            res.sample({'spec': 'out = ' + F.pr(f), 'long_traces': len(F.long_traces(len(F.fvars(f)) or 1, LONG_N, F.V3 if len(F.fvars(f)) < 2 else F.V2)), 'length': LONG_N}, 1)
+            continue
         st, m = explore_formula(res, mod, f, p)
         res.sample({'spec': m.text, 'events': [list(e) for e in m.events[:4]], 'states': st.states,
                     'transitions': st.transitions, 'fixpoint': st.fixpoint, 'max_depth': st.maxdepth}, 1)
